@@ -31,6 +31,24 @@ PUBLIC = {
 }
 
 
+# methods: the object itself is the first tracked argument (a method that only reads must leave it as it was)
+PUBLIC_METHODS = {
+    "holopy.inference.model": {"Model": ["lnprior", "lnlike", "lnposterior", "forward", "scatterer_from_parameters",
+                                         "theory_from_parameters", "generate_guess"],
+                               "AlphaModel": ["forward"], "ExactModel": ["forward"]},
+    "holopy.scattering.scatterer.scatterer": {"Scatterer": ["translated", "contains", "in_domain", "index_at", "from_parameters"]},
+    "holopy.scattering.scatterer.composite": {"Scatterers": ["translated", "rotated", "in_domain", "from_parameters",
+                                                            "get_component_list"]},
+    "holopy.scattering.scatterer.spherecluster": {"Spheres": ["largest_overlap"]},
+    "holopy.core.prior": {"Uniform": ["lnprob", "prob"], "Gaussian": ["lnprob", "prob"], "BoundedGaussian": ["lnprob", "prob"],
+                          "ComplexPrior": ["lnprob", "prob"], "Prior": ["scale", "unscale", "renamed"]},
+}
+PUBLIC["holopy.core.metadata"] += ["detector_grid", "detector_points", "data_grid"]
+PUBLIC["holopy.core.prior"] = ["updated", "generate_guess"]
+PUBLIC["holopy.core.io.vis"] = ["display_image"]
+RNG_APIS = {"make_subset_data", "add_noise", "simulate_noise", "generate_guess", "Model.generate_guess"}
+
+
 def tracked(x):
     import numpy as np
     try:
@@ -60,7 +78,8 @@ def wrap(name, f):
         DEPTH[0] += 1
         before = fps(args, kwargs)
         ev = {"api": name, "before": before, "seeded": bool(kwargs.get("seed") is not None),
-              "uses_rng": name in ("make_subset_data", "add_noise", "simulate_noise")}
+              "uses_rng": name in RNG_APIS or (name in ("Model.lnposterior", "Model.lnlike") and
+                                               (len(args) >= 4 and args[3] is not None or kwargs.get("pixels") is not None))}
         try:
             res = f(*args, **kwargs)
             try:
@@ -99,6 +118,21 @@ def install():
                     if val is f:
                         setattr(other, attr, w)
             done += 1
+    for mod, classes in PUBLIC_METHODS.items():
+        try:
+            m = importlib.import_module(mod)
+        except Exception:
+            continue
+        for cname, names in classes.items():
+            cls = getattr(m, cname, None)
+            if cls is None:
+                continue
+            for n in names:
+                f = cls.__dict__.get(n)
+                if f is None or getattr(f, "_verif_wrapped", False) or isinstance(f, (property, classmethod, staticmethod)):
+                    continue
+                setattr(cls, n, wrap("%s.%s" % (cname, n), f))
+                done += 1
     return done
 
 
